@@ -421,6 +421,11 @@ pub struct Observed {
 
 /// Run one case {prog, ctx0, handlers, acts?, gfun, gprefix?, ginfix?, gpostfix?, fault} on the real engine.
 pub fn run_case(r: &J, followups: bool) -> Observed {
+    run_case_ast(r, followups, None)
+}
+
+/// Like run_case, but evaluating an AST the caller already holds (the same parsed / built tree evaluated again, C16).
+pub fn run_case_ast(r: &J, followups: bool, shared: Option<&ExprAST<'static>>) -> Observed {
     expression_engine::verif_hooks::init();
     let mut rets = HashMap::new();
     for (h, v) in obj(r, "handlers") {
@@ -469,7 +474,14 @@ pub fn run_case(r: &J, followups: bool) -> Observed {
         }
     }
     let mut hidden = 0u32;
-    let ast = build_ast(&r["prog"], &mut ctx, &mut hidden);
+    let built;
+    let ast: &ExprAST<'static> = match shared {
+        Some(a) => a,
+        None => {
+            built = build_ast(&r["prog"], &mut ctx, &mut hidden);
+            &built
+        }
+    };
     let handle = ctx.0.clone();
     let handle2 = ctx.0.clone();
     let handle3 = ctx.0.clone();
@@ -892,6 +904,33 @@ pub fn determinism_replay(args: &[String]) {
         if !why.is_empty() {
             bad += 1;
             out.line(&json!({"mismatch": idx, "why": why}));
+        }
+    }
+    // one tree, many evaluations: records with the same program share ONE ExprAST value, which is evaluated on each record's
+    // context in turn (and once more on the first); every outcome must be the one the specification gives for that context
+    let mut groups: HashMap<String, Vec<usize>> = HashMap::new();
+    for (idx, r) in recs.iter().enumerate() {
+        groups.entry(r["prog"].to_string()).or_default().push(idx);
+    }
+    for (_, idxs) in groups.iter().filter(|(_, v)| v.len() >= 2) {
+        let mut scratch = Context::new();
+        let mut hidden = 0u32;
+        let ast = build_ast(&recs[idxs[0]]["prog"], &mut scratch, &mut hidden);
+        if hidden > 0 {
+            continue;
+        }
+        let mut order = idxs.clone();
+        order.push(idxs[0]);
+        for &i in &order {
+            n += 1;
+            let o = run_case_ast(&recs[i], false, Some(&ast));
+            let r = &recs[i];
+            let exp_st = r["st"].as_str().unwrap_or("dc");
+            let ok = exp_st == "dc" || (o.st == exp_st && (exp_st != "ok" || veq(&r["val"], &o.val)) && (o.poisoned || ctx_matches(&r["ctx"], &o.ctx)));
+            if !ok {
+                bad += 1;
+                out.line(&json!({"mismatch": i, "why": ["the same tree evaluated again on another context gave an outcome the specification does not give for that context"]}));
+            }
         }
     }
     out.line(&json!({"summary": {"cases": n, "mismatches": bad}}));
